@@ -13,7 +13,10 @@ THEOREMS = ['C05_bounded_native_is_spec', 'C05_integer_native_is_spec', 'C05_uns
             'C05_text_null_verdicts_agree', 'C05_text_paths_total', 'C05_datetime_native_is_spec', 'C05_datetime_naive_rule',
             'C05_datetime_verdict_of_instant', 'C05_datetime_lex_instant', 'C05_date_native_is_spec', 'C05_time_native_is_spec',
             'C05_datetime_leaf_spec', 'C05_date_leaf_spec', 'C05_time_leaf_spec', 'C05_range_paths_agree',
-            'C05_array_occurrence_is_spec', 'C05_flat_array_is_spec', 'C05_array_verdicts_agree']
+            'C05_array_occurrence_is_spec', 'C05_flat_array_is_spec', 'C05_array_verdicts_agree',
+            'C05_xml_nil_verdict', 'C05_xsi_target_keeps_declared', 'C05_xsi_target_named', 'C05_xsi_target_total',
+            'C05_enum_readers_are_spec', 'C05_enum_readers_agree', 'C05_decimal_native_is_spec', 'C05_decimal_verdict_of_number',
+            'C05_decimal_text_leaf_spec', 'C05_decimal_number_is_text']
 
 INT_CLASSES = {'Integer8': (True, 8), 'Integer16': (True, 16), 'Integer32': (True, 32), 'Integer64': (True, 64),
                'UnsignedInteger8': (False, 8), 'UnsignedInteger16': (False, 16), 'UnsignedInteger32': (False, 32),
@@ -1425,6 +1428,174 @@ def family_null_members(check, tier):
     check.sample({'family': 'null / absent object and array members', 'protocols': ['xml', 'soap11', 'json', 'yaml', 'msgpack']})
 
 
+# ------------------------------------------------------------------ correspondences of the step functions (Gen/C05Steps.v)
+STEP_IMPORTS = ('From SpyneV Require Import Base.Prelude Base.Ext Wire.Decimal C05.Facets C05.StepTypes Gen.FacetTypes Gen.C05Steps C05.StepModel.\n'
+                'Definition ozeqb (a b : option Z) := match a, b with Some x, Some y => Z.eqb x y | None, None => true | _, _ => false end.\n'
+                'Definition choice_eqb (a b : xsi_choice) := match a, b with Declared, Declared | Named, Named => true | _, _ => false end.')
+
+def g_dec(d):
+    t = d.as_tuple()
+    return '(mkdec %s %d %s)' % (gbool(bool(t.sign)), int(''.join(map(str, t.digits)) or '0'), gz(t.exponent))
+
+def g_dx(d):
+    if d.is_infinite():
+        return 'DPosInf' if d > 0 else 'DNegInf'
+    return '(DFin %s)' % g_dec(d)
+
+def family_step_corr(check, tier):
+    """the four generated decision procedures against the functions they were translated from"""
+    import spyne.model.primitive as P
+    from spyne import ComplexModel, Array
+    from spyne.model.complex import ComplexModelMeta
+    from spyne.protocol.xml import XmlDocument
+    from spyne.protocol.json import JsonDocument
+    from spyne.protocol.yaml import YamlDocument
+    from spyne.protocol.msgpack import MessagePackDocument
+    from lxml import etree
+    D = _dec.Decimal
+    rng = check.rng
+    # ---- xml_nil
+    nc = []
+    for soft in (True, False):
+        for repl in (True, False):
+            xml = XmlDocument(validator='soft' if soft else None, replace_null_with_default=repl)
+            for nill in (True, False):
+                for default in (None, 5, 0, rng.randint(-100, 100)):
+                    T = P.Integer.customize(nillable=nill, default=default)
+                    for nilv in ('true', '1'):
+                        el = etree.Element('x')
+                        el.set('{%s}nil' % XSI, nilv)
+                        if rng.random() < .3:
+                            el.text = '7'
+                        o = observe(xml.from_element, None, T, el)
+                        nc.append(('(%s, %s, %s, %s, %s)' % (gbool(soft), gbool(nill), gbool(repl), gopt(default, gz), gout(o, lambda v: gopt(v, gz))),
+                                   'nil soft=%s nillable=%s replace=%s default=%r -> %r' % (soft, nill, repl, default, o)))
+                        check.count(('nilcorr', soft, repl, nill, default, nilv))
+    lib.correspond(check, 'xml_nil', STEP_IMPORTS, 'bool * bool * bool * option Z * out (option Z)',
+                   '(fun c => match c with (s, n, r, d, o) => out_eqb ozeqb (xml_nil s n r d) o end)', nc)
+    # ---- xsi_target
+    A = ComplexModelMeta('A', (ComplexModel,), {'__namespace__': TNS, '_type_info': [('a', P.Integer)]})
+    B = ComplexModelMeta('B', (A,), {'__namespace__': TNS, '_type_info': [('b', P.Integer)]})
+    C = ComplexModelMeta('C', (ComplexModel,), {'__namespace__': TNS, '_type_info': [('c', P.Integer)]})
+    pool = [P.Unicode, P.Unicode(max_len=3), P.Unicode(pattern='[a-z]+', type_name='S1'), P.Integer, P.Integer(ge=0, le=9),
+            P.Integer8, P.Integer8(le=5), P.Decimal, P.Decimal(ge=0), P.Double, P.Double(le=5.0), P.Boolean, P.DateTime, P.Date,
+            P.DateTime(type_name='D1'), P.Uuid, P.AnyUri, A, B, C, A.customize(min_occurs=1), B.customize(nillable=False),
+            Array(P.Integer), Array(P.Unicode), Array(A), Array(P.Integer(ge=0)), mk_type(ENUM_EXPR)]
+    for t in pool:
+        try:
+            t.resolve_namespace(t, TNS)
+        except Exception:
+            pass
+    xc = []
+    pairs = [(a, b) for a in pool for b in pool]
+    if tier == 'quick':
+        pairs = rng.sample(pairs, 260)
+    for cls, new in pairs:
+        sup = getattr(cls, '__orig__', None) or cls
+        sub = getattr(new, '__orig__', None) or new
+        try:
+            nd = (new.get_namespace(), new.get_type_name()) != (cls.get_namespace(), cls.get_type_name())
+        except Exception:
+            continue
+        q = ('{| xq_same_orig := %s; xq_sup_is_array := %s; xq_names_differ := %s; xq_sup_is_complex := %s; xq_sub_extends_sup := %s |}'
+             % (gbool(sub is sup), gbool(issubclass(sup, Array)), gbool(nd), gbool(issubclass(sup, ComplexModel)), gbool(issubclass(sub, sup))))
+        o = observe(XmlDocument._get_xsi_target, cls, new, 'x:y')
+        if o[0] == 'ok':
+            o = ('ok', 'Declared' if o[1] is cls else 'Named' if o[1] is new else None)
+            if o[1] is None:
+                check.mismatch('xsi_target', '_get_xsi_target(%r, %r) returned a third class' % (cls, new))
+                continue
+        xc.append(('(%s, %s)' % (q, gout(o, lambda v: v)), '_get_xsi_target(%s, %s) -> %r' % (cls.__name__, new.__name__, o)))
+        check.count(('xsicorr', repr(cls), repr(new)))
+    lib.correspond(check, 'xsi_target', STEP_IMPORTS, 'xsi_query * out xsi_choice',
+                   '(fun c => out_eqb choice_eqb (xsi_target (fst c)) (snd c))', xc)
+    # ---- enum readers: the delivered object is named by the declared value it IS, anything else by a marker
+    E = mk_type(ENUM_EXPR)
+    names = {id(getattr(E, v)): v for v in E.__values__}
+    lits = list(E.__values__) + ENUM_HOSTILE + rng.sample([n for n in dir(E)], 12)
+    ec = {'enum_from_bytes': [], 'enum_from_element': []}
+    for soft in (True, False):
+        js = JsonDocument(validator='soft' if soft else None)
+        xml = XmlDocument(validator='soft' if soft else None)
+        for nill in (True, False):
+            T = E if nill else E.customize(nillable=False)
+            for lit in lits + [None]:
+                el = etree.Element('x')
+                el.text = lit if lit else None
+                src = {'enum_from_bytes': lit, 'enum_from_element': el.text}
+                for fn, o in (('enum_from_bytes', observe(js.enum_base_from_bytes, T, lit) if lit is not None else None),
+                              ('enum_from_element', observe(xml.enum_from_element, None, T, el))):
+                    if o is None:
+                        continue
+                    if o[0] == 'ok':
+                        o = ('ok', names.get(id(o[1]), '<not a member>'))
+                    ec[fn].append(('(%s, %s, %s, %s)' % (gbool(soft), gbool(nill), gopt(src[fn], gtext), gout(o, gtext)),
+                                   '%s soft=%s %r -> %r' % (fn, soft, src[fn], o)))
+                    check.count(('enumcorr', fn, soft, nill, lit))
+    gvals = glist([gtext(v) for v in E.__values__])
+    for fn in ec:
+        lib.correspond(check, fn, STEP_IMPORTS, 'bool * bool * option text * out text',
+                       '(fun c => match c with (s, n, ov, o) => out_eqb text_eqb (%s (fun v : text => v) s n %s ov) o end)' % (fn, gvals), ec[fn])
+    # ---- Decimal: text path and number path
+    xml = XmlDocument(validator='soft')
+    hiers = [JsonDocument(validator='soft'), YamlDocument(validator='soft'), MessagePackDocument(validator='soft')]
+    tcs, ncs = [], []
+    bounds = ['0.1', '0.3', '0.7', '19.99', '-0.1', '1.005', '100', '2.675', '0']
+    for _ in range(4 if tier == 'quick' else 40):
+        dg = rng.randint(1, 6)
+        bounds.append(str(D(rng.randint(-10 ** (dg + 2), 10 ** (dg + 2))).scaleb(-dg)))
+    for b in bounds:
+        bd = D(b)
+        kw = {}
+        facet = rng.choice(['ge', 'gt', 'le', 'lt'])
+        kw[facet] = bd
+        if rng.random() < .3:
+            kw[rng.choice(['le', 'lt']) if facet in ('ge', 'gt') else rng.choice(['ge', 'gt'])] = bd + rng.choice([1, -1, 0]) * D('0.5')
+        if rng.random() < .15:
+            kw['values'] = [bd, bd + 1]
+        T = P.Decimal.customize(**kw)
+        At = T.Attributes
+        ga = ('{| r4_nillable := %s; r4_gt := %s; r4_ge := %s; r4_lt := %s; r4_le := %s; r4_values := %s |}' % (
+            gbool(At.nillable), g_dx(At.gt), g_dx(At.ge), g_dx(At.lt), g_dx(At.le), glist([g_dx(v) for v in sorted(At.values)])))
+        gm = '(Fin %s)' % gz(At.max_str_len)
+        ulp = D(1).scaleb(min(bd.as_tuple().exponent, 0))
+        for vd in (bd, bd - ulp, bd + ulp, bd + ulp / 1000, bd.normalize(), bd + 1):
+            text = format(vd, 'f')
+            texts = [text, '+' + text, ' ' + text, text + '0' if '.' in text else text + '.0', str(vd.normalize())]
+            for t in texts + rng.sample(['NaN', 'abc', '', '1e3', '1.5.', '--1', 'Infinity', '.5', '5.'], 2):
+                el = etree.Element('x')
+                el.text = t if t else None
+                outs = [('xml', observe(xml.from_element, None, T, el))] if t else []
+                hp = rng.choice(hiers)
+                outs.append(('doc', observe(hp._from_dict_value, None, 'k', T, t, hp.validator)))
+                for where, o in outs:
+                    if where == 'doc' and t == '':
+                        continue        # empty_is_none is not part of this path's model
+                    go = gout(o, g_dec) if not (o[0] == 'ok' and o[1] is None) else None
+                    if go is None:
+                        continue
+                    tcs.append(('(%s, %s, %s, %s)' % (ga, gm, gtext(t), go), 'Decimal%r %s text %r -> %r' % (kw, where, t, o)))
+                    check.count(('deccorr', 'text', str(kw), where, t))
+            nums = [float(text)]
+            if vd == vd.to_integral_value():
+                nums.append(int(vd))
+            for v in nums:
+                hp = rng.choice(hiers)
+                o = observe(hp._from_dict_value, None, 'k', T, v, hp.validator)
+                exact = D(v)
+                ncs.append(('(%s, %s, %s, %s, %s)' % (ga, gm, gtext(str(v)), g_dec(exact), gout(o, g_dec)),
+                            'Decimal%r number %r -> %r' % (kw, v, o)))
+                check.count(('deccorr', 'number', str(kw), repr(v)))
+    lib.correspond(check, 'decimal_text_leaf', STEP_IMPORTS, 'rng4_attrs dx * ext * text * out dec',
+                   '(fun c => match c with (a, m, s, o) => out_eqb dec_eqb (decimal_text_leaf a m s) o end)', tcs,
+                   show='(fun c : rng4_attrs dx * ext * text * out dec => match c with (a, m, s, o) => decimal_text_leaf a m s end)')
+    lib.correspond(check, 'decimal_number_leaf', STEP_IMPORTS, 'rng4_attrs dx * ext * text * dec * out dec',
+                   '(fun c => match c with (a, m, s, e, o) => out_eqb dec_eqb (decimal_number_leaf (fun _ : unit => s) (fun _ : unit => e) a m tt) o end)', ncs,
+                   show='(fun c : rng4_attrs dx * ext * text * dec * out dec => match c with (a, m, s, e, o) => decimal_number_leaf (fun _ : unit => s) (fun _ : unit => e) a m tt end)')
+    check.sample({'family': 'step function correspondence', 'xml_nil': len(nc), 'xsi_target': len(xc),
+                  'enum': sum(len(v) for v in ec.values()), 'decimal_text': len(tcs), 'decimal_number': len(ncs)})
+
+
 # ------------------------------------------------------------------ round 2: decimal bounds, enum, xsi:type, nil x default
 def family_decimal_bounds(check, tier):
     """Decimal range facets whose bounds are not binary fractions (0.1, 0.3, 19.99 ...): the value exactly ON the
@@ -1615,12 +1786,13 @@ def run(check):
         'Decimal and Double ranges, Boolean, Duration, Uuid, Enum and the alternative document forms are decided by the '
         'direct oracle only; Decimal total_digits / fraction_digits are not part of the property text and are not checked',
         'HttpRpc is driven through WSGI GET query strings only (werkzeug is absent: no form bodies)']
-    check.regen(['numtypes', 'facettypes'])
+    check.regen(['numtypes', 'facettypes', 'c05steps'])
     check.check_sources()
     check.prove('Props.C05', THEOREMS)
     family_leaf_corr(check, check.tier)
     family_text_corr(check, check.tier)
     family_range_corr(check, check.tier)
+    family_step_corr(check, check.tier)
     family_int_e2e(check, check.tier)
     family_text_e2e(check, check.tier)
     family_occurs(check, check.tier)
